@@ -58,10 +58,19 @@ def choice(R):
     R.ob('C19.choice', 'entry chosen by the target scheme', ok, 'proxy looked up with %s' % U(o), func=f, node=o)
     lits = {(t, p) for (t, p, _) in guards_of(g, pn)}
     name = purl.id if isinstance(purl, ast.Name) else None
-    R.ob('C19.choice', 'proxied arm only for a truthy entry', match_exact(guard_atom_sets(g, pn), [{(name, True)}]), '_connect_proxy under %s' % sorted(lits),
-         func=f, node=pcall)
+    # every name that holds the looked-up entry (copies of the .get() result)
+    names = set()
+    for m in g.live_nodes():
+        for nm in defs_of_node(m):
+            v = rd.value_of_def(m, nm)
+            if v is not None and rd.origin(m, v)[0] is o:
+                names.add(nm)
+    if name:
+        names.add(name)
+    R.ob('C19.choice', 'proxied arm only for a truthy entry', match_exact(guard_atom_sets(g, pn), [{(x, True) for x in names}]),
+         '_connect_proxy under %s' % sorted(lits), func=f, node=pcall)
     dc = calls_to(R, g, S + '._connect_sock')
-    okd = len(dc) == 1 and match_exact(guard_atom_sets(g, dc[0][0]), [{(name, False)}])
+    okd = len(dc) == 1 and match_exact(guard_atom_sets(g, dc[0][0]), [{(x, False) for x in names}])
     if okd:
         c = dc[0][1]
         cs = R.func(S + '._connect_sock')
@@ -78,14 +87,15 @@ def choice(R):
             vals = set()
             for (oe, onn) in rd.origins(r, v.elts[1]):
                 vals.add(U(oe))
-            ok = vals <= {'None', name, U(o)} and 'None' in vals and len(vals) == 2
+            ok = vals <= ({'None', U(o)} | names) and 'None' in vals and len(vals) == 2
             # proxy value only on the proxied path
             for d in rd.defs_at(r, U(v.elts[1])):
                 val = rd.value_of_def(d, U(v.elts[1]))
+                gl = {(t, p) for (t, p, _) in guards_of(g, d)}
                 if val is not None and U(val) != 'None':
-                    ok = ok and (name, True) in {(t, p) for (t, p, _) in guards_of(g, d)}
+                    ok = ok and any((x, True) in gl for x in names)
                 if val is not None and U(val) == 'None':
-                    ok = ok and (name, False) in {(t, p) for (t, p, _) in guards_of(g, d)}
+                    ok = ok and any((x, False) in gl for x in names)
     R.ob('C19.choice', '_connect returns (socket, proxy url or None)', ok, '_connect returns %s' % [U(r.ast.value) for r in rets],
          func=f, node=(rets[0].ast if rets else None))
     gr = R.cfg(S + '.run')
@@ -123,11 +133,26 @@ def connect(R):
     h = arg_of(c, sockf, 'host')
     R.ob('C19.connect', 'connects to the proxy host', h is not None and U(h) == pu + '.hostname', 'host=%s' % U(h), func=f, node=c)
     p = arg_of(c, sockf, 'port')
-    po, pon = rd.origin(n, p) if p is not None else (None, None)
-    ok = isinstance(po, ast.IfExp) and U(po.test) == pu + '.port' and U(po.body) == 'int(%s.port)' % pu \
-        and isinstance(po.orelse, ast.IfExp) and U(po.orelse.test) == "%s.scheme == 'https'" % pu \
-        and fold(R, po.orelse.body, g.ctx) == 443 and fold(R, po.orelse.orelse, g.ctx) == 80
-    R.ob('C19.connect', 'proxy port: explicit, else 443/80 by the proxy scheme', ok, 'port = %s' % U(po), func=f, node=po)
+    po = p
+    from .common import value_cases, otext
+    cases = value_cases(R, g, n, p) if p is not None else []
+    seen_cases = set()
+    okp = bool(cases)
+    HT = "%s.scheme == 'https'" % pu
+    for (conds, val, site) in cases:
+        v = fold(R, val, g.ctx)
+        if otext(R, g, site, val) == 'int(%s.port)' % pu and (pu + '.port', True) in conds:
+            seen_cases.add('explicit')
+        elif v == 443 and (pu + '.port', False) in conds and (HT, True) in conds:
+            seen_cases.add('https')
+        elif v == 80 and (pu + '.port', False) in conds and (HT, False) in conds:
+            seen_cases.add('http')
+        else:
+            okp = False
+            po = val
+    ok = okp and seen_cases == {'explicit', 'https', 'http'}
+    R.ob('C19.connect', 'proxy port: explicit, else 443/80 by the proxy scheme', ok, 'port cases: %s' % [
+        (sorted(c)[:3], U(v)) for (c, v, _) in cases], func=f, node=(po if po is not None else c))
     s = arg_of(c, sockf, 'ssl')
     R.ob('C19.connect', 'TLS to the proxy by the proxy scheme', s is not None and U(s) == "%s.scheme == 'https'" % pu,
          'ssl=%s' % U(s), func=f, node=c)
